@@ -1,4 +1,529 @@
-import Lomond.Model.Core
-import Lomond.Model.Handshake
+/-
+  C10 — Ready is granted only for a correct upgrade reply to a well-formed request.
+
+  Property theorems only; helper lemmas live in `Proofs/Http`.  Model: `Model/Http` (Response,
+  on_response, process_extensions, build_request), `Model/Handshake` (base64, URL ↦ request
+  parameters, key life-cycle, the independent request reader `Spec.parseRequest`, the conforming
+  reply generator `Spec.renderReply`) and the header phase of `Model/Core.feedBody`.
+
+  `digest` (SHA-1 + base64 of key ++ GUID) is a *parameter*: every statement holds for every
+  challenge string `ch`.  `strict = true` is the repaired comparison of Sec-WebSocket-Accept,
+  `strict = false` is what the pinned code does (`accept.lower() != challenge.lower()`, finding D5).
+-/
+import Lomond.Proofs.Http
+import Lomond.Proofs.HandshakeCore
+
 namespace Lomond.C10
+open Lomond Lomond.Http Lomond.Handshake Lomond.Spec Lomond.Core
+
+def hUpgrade : Str := ofString "upgrade"
+def hAccept : Str := ofString "sec-websocket-accept"
+def hExt : Str := ofString "sec-websocket-extensions"
+def hProto : Str := ofString "sec-websocket-protocol"
+def websocket : Str := ofString "websocket"
+def pmd : Str := ofString "permessage-deflate"
+
+/-- `process_extensions` accepts this list of extension entries (no `CompressionParameterError`) -/
+def extsOk (exts : List Str) : Prop := ∃ d, processExtensions exts none = .ok d
+
+/-- `on_response` returns normally, i.e. `WebSocket.feed` yields Ready (and not Rejected) -/
+def Ready (strict : Bool) (ch : Str) (r : Response) : Prop := ∃ a, onResponse strict ch r = .ok a
+
+/-! ## 1. Ready iff the reply is a correct upgrade reply (parsed-reply level, every header table) -/
+
+/-- both variants at once: the only difference is how the accept value is compared -/
+theorem C10_ready_iff_variant (strict : Bool) (ch : Str) (r : Response) :
+    Ready strict ch r ↔
+      (r.statusCode = some (false, 101) ∧
+       (∃ u, r.get hUpgrade = some u ∧ lower u = websocket) ∧
+       (∃ acc, r.get hAccept = some acc ∧ (if strict then acc = ch else lower acc = lower ch)) ∧
+       extsOk (r.getList hExt)) := by
+  unfold Ready onResponse extsOk
+  by_cases hs : r.statusCode = some (false, 101)
+  · simp only [hs, ne_eq, not_true_eq_false, if_false, true_and]
+    cases hu : r.get (ofString "upgrade") with
+    | none =>
+      have : lower (ofString "<header missing>") ≠ ofString "websocket" := by decide
+      simp [hUpgrade, hu, this]
+    | some u =>
+      by_cases hl : lower u = ofString "websocket"
+      · simp only [hUpgrade, hu, Option.getD_some, hl, not_true_eq_false, if_false]
+        cases ha : r.get (ofString "sec-websocket-accept") with
+        | none => simp [hAccept, ha]
+        | some acc =>
+          simp only [hAccept, ha]
+          by_cases hsame : (if strict then acc = ch else lower acc = lower ch)
+          · cases strict <;> simp at hsame <;> simp [hsame, hExt, websocket, hl] <;>
+              (cases processExtensions (r.getList (ofString "sec-websocket-extensions")) none <;> simp)
+          · cases strict <;> simp at hsame <;> simp [hsame]
+      · simp [hUpgrade, hu, hl, websocket]
+  · simp [hs]
+
+/-- **C10_ready_iff** (repaired comparison).  Ready is yielded iff the status is 101, the Upgrade
+    header is `websocket` (any letter case), the Sec-WebSocket-Accept header is present and *equal* to
+    the digest of the key, and the extension parameters are acceptable — for every header table,
+    i.e. whatever else the reply contains. -/
+theorem C10_ready_iff (ch : Str) (r : Response) :
+    Ready true ch r ↔
+      (r.statusCode = some (false, 101) ∧
+       (∃ u, r.get hUpgrade = some u ∧ lower u = websocket) ∧
+       r.get hAccept = some ch ∧
+       extsOk (r.getList hExt)) := by
+  rw [C10_ready_iff_variant]
+  simp
+
+/-- what the pinned code decides: the same with the accept value compared case-insensitively -/
+theorem C10_ready_iff_present (ch : Str) (r : Response) :
+    Ready false ch r ↔
+      (r.statusCode = some (false, 101) ∧
+       (∃ u, r.get hUpgrade = some u ∧ lower u = websocket) ∧
+       (∃ acc, r.get hAccept = some acc ∧ lower acc = lower ch) ∧
+       extsOk (r.getList hExt)) := by
+  rw [C10_ready_iff_variant]
+  simp
+
+/-! ## 2. the pinned comparison is wrong (finding D5), with a concrete witness -/
+
+/-- RFC 6455 §1.3: key `dGhlIHNhbXBsZSBub25jZQ==` has the digest `s3pPLMBiTxaQ9kYGzzhZRbK+xOo=` -/
+def sampleDigest : Str := ofString "s3pPLMBiTxaQ9kYGzzhZRbK+xOo="
+
+/-- a reply whose accept value is the digest with the case of every letter swapped -/
+def swapcaseReply : Bytes :=
+  lit "HTTP/1.1 101 Switching Protocols\r\nUpgrade: websocket\r\nConnection: Upgrade\r\nSec-WebSocket-Accept: S3PplmbItXAq9KygZZHzrBk+XoO=\r\n\r\n"
+
+/-- **C10_lenient_fails**: under the pinned comparison there is a reply that is granted Ready although
+    its Sec-WebSocket-Accept differs from the digest. -/
+theorem C10_lenient_fails :
+    ∃ (ch : Str) (reply : Bytes) (acc : Str),
+      Ready false ch (parseResponse reply) ∧ (parseResponse reply).get hAccept = some acc ∧ acc ≠ ch := by
+  refine ⟨sampleDigest, swapcaseReply, ofString "S3PplmbItXAq9KygZZHzrBk+XoO=", ?_, ?_, ?_⟩
+  · have h : (onResponse false sampleDigest (parseResponse swapcaseReply)).toOption =
+        some { protocol := none, deflate := none } := by decide +kernel
+    unfold Ready
+    cases hh : onResponse false sampleDigest (parseResponse swapcaseReply) with
+    | ok a => exact ⟨a, rfl⟩
+    | error e => rw [hh] at h; simp [Except.toOption] at h
+  · decide +kernel
+  · decide
+
+/-- the same reply is refused by the repaired comparison -/
+theorem C10_strict_rejects_witness : ¬ Ready true sampleDigest (parseResponse swapcaseReply) := by
+  have h : (onResponse true sampleDigest (parseResponse swapcaseReply)).toOption = none := by decide +kernel
+  rintro ⟨a, ha⟩
+  rw [ha] at h
+  simp [Except.toOption] at h
+
+/-- **C10_ready_iff_partial**: on every reply whose accept value is not a mere case variant of the
+    digest (equal to it, or different even after lower-casing) both variants — in particular the
+    pinned code — satisfy the exact statement. -/
+theorem C10_ready_iff_partial (strict : Bool) (ch : Str) (r : Response)
+    (hcase : ∀ acc, r.get hAccept = some acc → lower acc = lower ch → acc = ch) :
+    Ready strict ch r ↔
+      (r.statusCode = some (false, 101) ∧
+       (∃ u, r.get hUpgrade = some u ∧ lower u = websocket) ∧
+       r.get hAccept = some ch ∧
+       extsOk (r.getList hExt)) := by
+  rw [C10_ready_iff_variant]
+  cases strict
+  · simp only [Bool.false_eq_true, if_false]
+    constructor
+    · rintro ⟨h1, h2, ⟨acc, ha, hl⟩, h4⟩
+      exact ⟨h1, h2, by rw [ha, hcase acc ha hl], h4⟩
+    · rintro ⟨h1, h2, h3, h4⟩
+      exact ⟨h1, h2, ⟨ch, h3, rfl⟩, h4⟩
+  · simp
+
+/-! ## 3. what Ready reports -/
+
+/-- **C10_ready_reports**: the protocol reported with Ready is the reply's Sec-WebSocket-Protocol
+    header (`None` when absent); the compression configuration is what `process_extensions`
+    computed from the reply's Sec-WebSocket-Extensions list, and `permessage-deflate` is in the
+    reported extension set iff some entry of that list is a `permessage-deflate` entry. -/
+theorem C10_ready_reports (strict : Bool) (ch : Str) (r : Response) (a : Accepted)
+    (h : onResponse strict ch r = .ok a) :
+    a.protocol = r.get hProto ∧
+    processExtensions (r.getList hExt) none = .ok a.deflate ∧
+    (a.deflate.isSome = true ↔ ∃ e ∈ r.getList hExt, (parseExtension e).1 = pmd) := by
+  have key : a.protocol = r.get hProto ∧ processExtensions (r.getList hExt) none = .ok a.deflate := by
+    obtain ⟨h1, ⟨u, hu, hl⟩, ⟨acc, ha, hsame⟩, ⟨d, hd⟩⟩ := (C10_ready_iff_variant strict ch r).mp ⟨a, h⟩
+    unfold onResponse at h
+    simp only [hUpgrade, hAccept, hExt, websocket] at hu hl ha hd
+    have hsame' : (if strict = true then acc = ch else lower acc = lower ch) := hsame
+    simp only [h1, ne_eq, not_true_eq_false, if_false, hu, Option.getD_some, hl, ha, hsame', hd,
+      Except.ok.injEq] at h
+    subst h
+    exact ⟨rfl, hd⟩
+  refine ⟨key.1, key.2, ?_⟩
+  rw [processExtensions_isSome _ none a.deflate key.2]
+  simp [pmd]
+
+/-! ## 4. lifting to the bytes on the wire: every conforming rendering of a header set -/
+
+/-- **C10_ready_iff_wire** (both variants).  Take any status line `HTTP-version SP 3DIGIT SP reason` and any list of
+    header fields written by the conforming generator — in *any order* (the list is arbitrary), with
+    *any letter case* of the names, *any blanks* (spaces, tabs) around the values and optionally an
+    *obs-fold* between colon and value, provided no name occurs twice.  Then Ready is yielded iff
+    the three digits are `101`, the field `upgrade` has a value that lower-cases to `websocket`, the
+    field `sec-websocket-accept` has exactly the value `ch` (pinned code: a value that equals `ch` up to
+    letter case), and the extension list is acceptable. -/
+theorem C10_ready_iff_wire_variant (strict : Bool) (ch : Str) (ver reason : Bytes) (a b c : Nat) (fs : List WireField)
+    (hver : ver ≠ [] ∧ ∀ x ∈ ver, isBytesSpace x = false) (hreason : ∀ x ∈ reason, x ≠ 13)
+    (hdig : isDigit a = true ∧ isDigit b = true ∧ isDigit c = true)
+    (hok : ∀ f ∈ fs, f.ok = true) (hnd : (fs.map (·.name)).Nodup) :
+    Ready strict ch (parseResponse (renderReply (statusLine ver [a, b, c] reason) fs)) ↔
+      ([a, b, c] = [49, 48, 49] ∧
+       (∃ f ∈ fs, f.name = hUpgrade ∧ lower f.value = websocket) ∧
+       (∃ f ∈ fs, f.name = hAccept ∧ (if strict then f.value = ch else lower f.value = lower ch)) ∧
+       extsOk (splitList ((fieldValue fs hExt).getD []))) := by
+  have hfok : ∀ f ∈ fs, FieldOk f := fun f hf => fieldOk_of_ok f (hok f hf)
+  have hsl : ∀ x ∈ statusLine ver [a, b, c] reason, x ≠ 13 := by
+    intro x hx e
+    subst e
+    have h1 : (13 : Nat) ∉ ver := fun h => by have := hver.2 13 h; revert this; decide
+    have h2 : (13 : Nat) ∉ reason := fun h => hreason 13 h rfl
+    simp only [isDigit, Bool.and_eq_true, decide_eq_true_eq] at hdig
+    simp only [statusLine, List.append_assoc, List.mem_append, List.mem_cons, List.not_mem_nil, or_false] at hx
+    rcases hx with h | h | h | h | h
+    all_goals first | exact h1 h | exact h2 h | omega
+  have hh := headers_render (statusLine ver [a, b, c] reason) fs hsl hfok hnd
+  have hget := get_of_headers _ fs hh
+  rw [C10_ready_iff_variant, statusCode_render ver reason a b c fs hver.1 hver.2 hreason hdig.1 hdig.2.1 hdig.2.2,
+    status_101_iff a b c hdig.1 hdig.2.1 hdig.2.2]
+  have e1 : lower hUpgrade = hUpgrade := by decide
+  have e2 : lower hAccept = hAccept := by decide
+  have e3 : lower hExt = hExt := by decide
+  simp only [Response.getList, hget, e1, e2, e3, fieldValue_eq_some_iff fs hnd]
+  constructor
+  · rintro ⟨h1, ⟨u, ⟨f, hf, hn, hv⟩, hu⟩, ⟨acc, ⟨g, hg, hgn, hgv⟩, hacc⟩, h4⟩
+    exact ⟨h1, ⟨f, hf, hn, by rw [hv]; exact hu⟩, ⟨g, hg, hgn, by rw [hgv]; exact hacc⟩, h4⟩
+  · rintro ⟨h1, ⟨f, hf, hn, hu⟩, ⟨g, hg, hgn, hacc⟩, h4⟩
+    exact ⟨h1, ⟨f.value, ⟨f, hf, hn, rfl⟩, hu⟩, ⟨g.value, ⟨g, hg, hgn, rfl⟩, hacc⟩, h4⟩
+
+/-- the repaired comparison: the accept field must carry exactly `ch` -/
+theorem C10_ready_iff_wire (ch : Str) (ver reason : Bytes) (a b c : Nat) (fs : List WireField)
+    (hver : ver ≠ [] ∧ ∀ x ∈ ver, isBytesSpace x = false) (hreason : ∀ x ∈ reason, x ≠ 13)
+    (hdig : isDigit a = true ∧ isDigit b = true ∧ isDigit c = true)
+    (hok : ∀ f ∈ fs, f.ok = true) (hnd : (fs.map (·.name)).Nodup) :
+    Ready true ch (parseResponse (renderReply (statusLine ver [a, b, c] reason) fs)) ↔
+      ([a, b, c] = [49, 48, 49] ∧
+       (∃ f ∈ fs, f.name = hUpgrade ∧ lower f.value = websocket) ∧
+       (∃ f ∈ fs, f.name = hAccept ∧ f.value = ch) ∧
+       extsOk (splitList ((fieldValue fs hExt).getD []))) := by
+  rw [C10_ready_iff_wire_variant true ch ver reason a b c fs hver hreason hdig hok hnd]
+  simp
+
+/-- the order in which a duplicate-free set of fields is written is irrelevant for what
+    `Response.get` returns (stated on the lookup the wire theorem is phrased with) -/
+theorem C10_order_irrelevant (fs fs' : List WireField) (hp : fs.Perm fs')
+    (hnd : (fs.map (·.name)).Nodup) (n : Bytes) : fieldValue fs n = fieldValue fs' n :=
+  fieldValue_perm fs fs' hp hnd n
+
+/-- and the parsed header table is exactly the written set, in the written order -/
+theorem C10_headers_of_wire (sl : Bytes) (fs : List WireField) (hsl : ∀ c ∈ sl, c ≠ 13)
+    (hok : ∀ f ∈ fs, f.ok = true) (hnd : (fs.map (·.name)).Nodup) :
+    (parseResponse (renderReply sl fs)).headers = fs.map (fun f => (f.name, f.value)) :=
+  headers_render sl fs hsl (fun f hf => fieldOk_of_ok f (hok f hf)) hnd
+
+/-! ## 5. the request is well-formed and is the request for the URL -/
+
+/-- **C10_request_wellformed**: an independent RFC 7230 reader applied to `build_request()`'s bytes
+    returns `GET <resource> HTTP/1.1` and exactly the header list: custom headers first, then Host,
+    Upgrade, Connection, Sec-WebSocket-Key, Sec-WebSocket-Version 13, User-Agent, the offered
+    protocols (when any) and the permessage-deflate offer (when `compress`); nothing follows the
+    empty line.  Side conditions: no CR/LF/blank inside the resource, custom names are non-empty
+    without colon/blank/CR/LF, values have no CR/LF and no blank at either end. -/
+theorem C10_request_wellformed (c : ReqCfg)
+    (hres : c.resource ≠ [] ∧ ∀ x ∈ c.resource, x ≠ 32 ∧ x ≠ 13 ∧ x ≠ 10)
+    (hcustom : ∀ p ∈ c.customHeaders, NameOk p.1 ∧ ValueOk p.2)
+    (hhost : ValueOk c.hostPort) (hkey : ValueOk c.key) (hagent : ValueOk c.agent)
+    (hproto : ValueOk (joinWith (lit ", ") c.protocols)) :
+    parseRequest (buildRequest c) =
+      some { method := lit "GET", target := c.resource, version := lit "HTTP/1.1", headers := requestHeaders c } :=
+  request_wellformed c hres hcustom hhost hkey hagent hproto
+
+/-- **C10_request_for_url**: for a client built from URL components (scheme, host, optional port,
+    path, query) the `n`-th `connect()` writes a well-formed request whose target is `path[?query]`
+    (`/` for an empty path), whose Host is `host:port` with the scheme's default port filled in, and
+    whose key is the base64 of the `n`-th 16-byte draw. -/
+theorem C10_request_for_url (cl : Client) (rnd : Nat → Bytes) (n : Nat)
+    (hhost : Solid cl.url.host) (hpath : Solid cl.url.path) (hquery : Solid cl.url.query)
+    (hagent : ValueOk cl.agent) (hprotos : ∀ p ∈ cl.protocols, p ≠ [] ∧ Solid p)
+    (hcustom : ∀ p ∈ cl.customHeaders, NameOk p.1 ∧ ValueOk p.2) :
+    parseRequest (nthRequest cl rnd n) =
+      some { method := lit "GET", target := cl.url.resource, version := lit "HTTP/1.1",
+             headers := requestHeaders (cl.reqCfg (b64encode (rnd n))) } ∧
+    (lit "Host", cl.url.host ++ [58] ++ natBytes cl.url.effPort) ∈ requestHeaders (cl.reqCfg (b64encode (rnd n))) ∧
+    (lit "Sec-WebSocket-Key", b64encode (rnd n)) ∈ requestHeaders (cl.reqCfg (b64encode (rnd n))) := by
+  unfold nthRequest
+  rw [(afterConnects_spec rnd n).2]
+  refine ⟨?_, ?_, ?_⟩
+  · exact request_wellformed (cl.reqCfg (b64encode (rnd n))) (resource_ok cl.url hpath hquery) hcustom
+      (hostPort_ok cl.url hhost) (valueOk_of_solid _ (b64encode_solid _)) hagent (protocols_ok cl.protocols hprotos)
+  · simp [requestHeaders, Client.reqCfg, Url.hostPort]
+  · simp [requestHeaders, Client.reqCfg]
+
+/-- default ports: 80 for `ws`, 443 for `wss`; an explicit non-zero port is kept -/
+theorem C10_effective_port (u : Url) :
+    u.effPort = (match u.port with
+      | some p => if p ≠ 0 then p else (if u.secure then 443 else 80)
+      | none => if u.secure then 443 else 80) := rfl
+
+/-! ## 6. a fresh key for every connection attempt -/
+
+/-- **C10_fresh_key**: the key of the `n`-th `connect()` is the base64 of the `n`-th 16-byte draw
+    (draw 0 is consumed by the constructor); no draw is used twice, and — base64 being injective —
+    different draws give different keys. -/
+theorem C10_fresh_key (rnd : Nat → Bytes) (n : Nat) :
+    (afterConnects rnd n).key = b64encode (rnd n) ∧
+    (afterConnects rnd n).draws = n + 1 ∧
+    (∀ m, Bytes.WF (rnd m) → Bytes.WF (rnd n) → rnd m ≠ rnd n →
+      (afterConnects rnd m).key ≠ (afterConnects rnd n).key) := by
+  refine ⟨(afterConnects_spec rnd n).2, (afterConnects_spec rnd n).1, ?_⟩
+  intro m hm hn hne e
+  rw [(afterConnects_spec rnd n).2, (afterConnects_spec rnd m).2] at e
+  exact hne (b64encode_injective _ _ hm hn e)
+
+/-- base64 of the key loses nothing (so the server can recover the 16 bytes) -/
+theorem C10_key_roundtrip (bs : Bytes) (h : Bytes.WF bs) : b64decode (b64encode bs) = some bs :=
+  b64decode_encode bs h
+
+/-! ## 7. the 16 KiB bound on the reply's header block, and segmentation -/
+
+/-- **C10_header_limit**: while the parser waits for the header block
+    (a) more than 16384 buffered bytes without terminator ⇒ `ParseError` (⇒ ProtocolError), the
+        parser is finished;
+    (b) a terminator that ends beyond byte 16384 ⇒ the same error, nothing is handed to `Response`;
+    (c) 16384 bytes or fewer without terminator ⇒ the bytes are kept and nothing else happens;
+    (d) a block of at most 16384 bytes (terminator included) is handed to `Response`/`on_response`
+        exactly as received, and what follows it in the same read goes to the frame parser. -/
+theorem C10_header_limit (s : Sys) (data : Bytes) (hc : s.p.cont = .header) :
+    (findSep Gen.headerSep (s.p.buf ++ data) = none → (s.p.buf ++ data).length > 16384 →
+        feedBody data s = .err (.parse "expected separator") { s with p := deadParser s.p }) ∧
+    (∀ i, findSep Gen.headerSep (s.p.buf ++ data) = some i → i + 4 > 16384 →
+        feedBody data s = .err (.parse "expected separator") { s with p := deadParser s.p }) ∧
+    (findSep Gen.headerSep (s.p.buf ++ data) = none → (s.p.buf ++ data).length ≤ 16384 →
+        feedBody data s = .ok () { s with p := { s.p with buf := s.p.buf ++ data } }) ∧
+    (∀ i, findSep Gen.headerSep (s.p.buf ++ data) = some i → i + 4 ≤ 16384 →
+        feedBody data s =
+          (do let go ← onOut (.header ((s.p.buf ++ data).take (i + 4)))
+              if go then do
+                let _ ← feedLoop ((s.p.buf ++ data).drop (i + 4))
+                pure ()
+              else pure () : M Unit)
+            { s with p := { s.p with cont := .hdr2, remPred := 1, utf8 := false, buf := [] } }) :=
+  ⟨fun h1 h2 => feedBody_unterminated_long s data hc h1 h2,
+   fun i h1 h2 => feedBody_terminated_long s data i hc h1 h2,
+   fun h1 h2 => feedBody_unterminated_short s data hc h1 h2,
+   fun i h1 h2 => feedBody_terminated_ok s data i hc h1 h2⟩
+
+/-- the limit is the generated constant of `FrameParser.parse`'s `read_until` -/
+theorem C10_limit_is_16KiB : Gen.headerMax = 16 * 1024 ∧ Gen.headerMaxIsNone = false ∧
+    Gen.headerSep = [13, 10, 13, 10] := by decide
+
+/-- **C10_segmented**: as long as the terminator has not arrived, feeding `a` and then `b` equals
+    feeding `a ++ b` — same result, same state, same error (a failed parser is left in one
+    normalised dead state, so not even the error state depends on the cut).  By induction this makes
+    the outcome independent of how the reply is cut into reads; `Core.wsFeed_append` /
+    `Core.wsFeedChunks_eq_flatten` (C02) extend it to whole connections. -/
+theorem C10_segmented (s : Sys) (a b : Bytes) (hc : s.p.cont = .header)
+    (hnone : findSep Gen.headerSep (s.p.buf ++ a) = none) :
+    (do feedBody a; feedBody b : M Unit) s = feedBody (a ++ b) s :=
+  feedBody_header_split s a b hc hnone
+
+/-- the same at the level of `WebSocket.feed`, for every cut of every read (header phase or not) -/
+theorem C10_segmented_feed (s : Sys) (a b : Bytes) (hi : HdrInv s) :
+    wsFeed (a ++ b) s =
+      match wsFeed a s with
+      | .ok _ s' => wsFeed b s'
+      | .err x s' => .err x s' :=
+  wsFeed_append a b s hi
+
+/-! ## 8. consequences of not being granted Ready -/
+
+/-- **C10_not_ready_consequences** (Rejected).  The read that completes a header block (within the
+    limit) which `on_response` refuses has exactly these observable effects, for *every* application
+    (`s.react` is arbitrary): the socket is closed (if it was open), `Rejected reason` is yielded,
+    and after that only results of the application's own calls are recorded (every send fails, no
+    byte is written) — no Ready, no message event; the websocket is closed, the socket gone,
+    `ready` stays false, and every later read is ignored. -/
+theorem C10_not_ready_consequences (s : Sys) (data : Bytes) (i : Nat) (reason : Str)
+    (hc : s.p.cont = .header) (hclosed : s.closed = false) (hready : s.ready = false)
+    (hsome : findSep Gen.headerSep (s.p.buf ++ data) = some i) (hlen : i + 4 ≤ 16384)
+    (herr : onResponse s.cfg.v.strictAccept s.cfg.challenge
+              (parseResponse ((s.p.buf ++ data).take (i + 4))) = .error reason) :
+    ∃ s', (wsFeed data s = .ok () s' ∨ ∃ x, wsFeed data s = .err x s') ∧
+      s'.closed = true ∧ s'.sockOpen = false ∧ s'.ready = false ∧
+      (∃ t, s'.trace = t ++ .ev (.rejected reason) :: ((if s.sockOpen then [Obs.sockClose] else []) ++ s.trace) ∧
+        ∀ o ∈ t, ∃ r, o = .res r) ∧
+      (∀ later, wsFeed later s' = .ok () s') := by
+  obtain ⟨s', hout, hres⟩ := wsFeed_rejected s data i reason hc hclosed hready hsome hlen herr
+  obtain ⟨t, ht, hall⟩ := hout.trace
+  refine ⟨s', hres, hout.closed, hout.sock, hout.ready, ⟨t, ht, ?_⟩, fun later => wsFeed_closed s' later hout.closed⟩
+  intro o ho
+  have := hall o ho
+  cases o <;> simp [Obs.isRes] at this
+  exact ⟨_, rfl⟩
+
+/-- **C10_oversize_consequences** (ProtocolError).  When the buffered header material exceeds
+    16384 bytes — no terminator yet, or a terminator ending beyond the limit — `WebSocket.feed`
+    yields exactly one event, a critical `ProtocolError`, to which the application may react
+    (its calls can write frames and report results but cannot produce events), and then raises;
+    nothing was handed to `Response`, so there is no Ready, no Rejected and no message event. -/
+theorem C10_oversize_consequences (s : Sys) (data : Bytes)
+    (hc : s.p.cont = .header) (hclosed : s.closed = false) (hready : s.ready = false)
+    (hbig : (findSep Gen.headerSep (s.p.buf ++ data) = none ∧ (s.p.buf ++ data).length > 16384) ∨
+            (∃ i, findSep Gen.headerSep (s.p.buf ++ data) = some i ∧ i + 4 > 16384)) :
+    ∃ s' x, wsFeed data s = .err x s' ∧ s'.ready = false ∧
+      ∃ t, s'.trace = t ++ .ev (.protocolError "expected separator" true) :: s.trace ∧
+        ∀ o ∈ t, ∀ e, o ≠ .ev e := by
+  have herr : feedBody data s = .err (.parse "expected separator") { s with p := deadParser s.p } := by
+    rcases hbig with ⟨h1, h2⟩ | ⟨i, h1, h2⟩
+    · exact feedBody_unterminated_long s data hc h1 h2
+    · exact feedBody_terminated_long s data i hc h1 h2
+  obtain ⟨s', x, hrel, hres⟩ := wsFeed_header_too_long s { s with p := deadParser s.p } data hclosed hready herr
+  obtain ⟨t, ht, hn, _⟩ := hrel.trace
+  refine ⟨s', x, hres, by rw [hrel.ready]; exact hready, t, ht, ?_⟩
+  intro o ho e he
+  have := hn o ho
+  rw [he] at this
+  simp [Obs.isEv] at this
+
+/-- … and `run()` turns the forced disconnect into a closed socket, a closed selector and a final
+    non-graceful Disconnected, whatever the application does with that event. -/
+theorem C10_forced_disconnect_closes (s s1 : Sys) (k : String)
+    (hloop : loop s.env s = .err (.forceDisconnect k) s1) :
+    ∃ s', (runLoop s).state = s' ∧ s'.sockOpen = false ∧ s'.selOpen = false ∧
+    ∃ t t', s'.trace = t ++ .ev (.disconnected k false) :: (t' ++ s1.trace) ∧
+      (∀ o ∈ t, o.isEv = false) ∧ (∀ o ∈ t', o.isEv = false) :=
+  runLoop_force_closes s s1 k hloop
+
+/-- **C10_ready_event**: when `on_response` accepts the block, the very next thing `WebSocket.feed`
+    does — after switching compression on as negotiated, without touching the trace — is to yield
+    `Ready(protocol, extensions)` with exactly the values `on_response` returned. -/
+theorem C10_ready_event (s : Sys) (data : Bytes) (acc : Accepted)
+    (hok : onResponse s.cfg.v.strictAccept s.cfg.challenge (parseResponse data) = .ok acc) :
+    ∃ s1, s1.trace = s.trace ∧ s1.compression = acc.deflate ∧
+      onOut (.header data) s =
+        (do feedYield true (.ready acc.protocol acc.deflate.isSome)
+            modS (fun s => { s with parsedResponse := true })
+            notClosed : M Bool) s1 := by
+  refine ⟨{ s with compression := acc.deflate, decompress := acc.deflate.isSome,
+                   p := if acc.deflate.isSome then { s.p with compression := true } else s.p }, rfl, rfl, ?_⟩
+  unfold onOut
+  simp only [bind, M.bind, getS, hok, modS]
+
+/-- … and yielding hands the event to the application first: whatever the application does in
+    reaction, the event is in the trace, immediately on top of what was there before. -/
+theorem C10_event_handed_over (e : Event) (s : Sys) :
+    ∃ t, (yieldEv e s).state.trace = t ++ .ev e :: s.trace ∧ ∀ o ∈ t, ∀ e', o ≠ .ev e' := by
+  obtain ⟨t, ht, hn, _⟩ := (yieldEv_rel e s).trace
+  refine ⟨t, ht, ?_⟩
+  intro o ho e' he
+  have := hn o ho
+  rw [he] at this
+  simp [Obs.isEv] at this
+
+/-- the application cannot fake an event: whatever calls it makes in reaction to an event, they add
+    no event to the trace, never re-open the socket and leave `ready`/`closed` alone -/
+theorem C10_reaction_adds_no_event (acts : List Act) (s : Sys) :
+    (doActs acts s).state.ready = s.ready ∧ (doActs acts s).state.closed = s.closed ∧
+    (s.sockOpen = false → (doActs acts s).state.sockOpen = false) ∧
+    ∃ t, (doActs acts s).state.trace = t ++ s.trace ∧ ∀ o ∈ t, ∀ e, o ≠ .ev e := by
+  have h := doActs_rel acts s
+  obtain ⟨t, ht, hn, _⟩ := h.trace
+  refine ⟨h.ready, h.closed, h.sock, t, ht, ?_⟩
+  intro o ho e he
+  have := hn o ho
+  rw [he] at this
+  simp [Obs.isEv] at this
+
+/-! ## What is proved at full strength and what is not
+
+  * `C10_ready_iff` / `_variant` / `_present` / `_partial`, `C10_ready_reports`: every parsed reply
+    (every header table), every challenge — full strength at the `Response` level.
+  * `C10_ready_iff_wire(_variant)`: full strength over the conforming generator (any order, any
+    name casing, SP/HT around values, an obs-fold after the colon, no repeated name, status line
+    `version SP 3DIGIT SP reason`).  Replies outside the generator — repeated fields (joined with `,`),
+    folds inside a value, VT/FF/FS–US as blanks, status tokens such as `+101` — are decided by
+    `parseResponse` and therefore by `C10_ready_iff`, and are compared model-vs-code byte for byte by
+    the correspondence check; there is no independent wire-level specification for them in Lean.
+    Full statement not proved:
+      `∀ data, Ready true ch (parseResponse data) ↔ RFC7230.reads data as (101, hs) ∧ upgrade hs ∧ accept hs = ch`.
+  * `C10_segmented`: the header phase, with no side condition; `C10_segmented_feed` is C02's
+    `wsFeed_append` (every phase, under the header invariant `HdrInv`).
+  * `C10_not_ready_consequences`: complete for Rejected at the level of `WebSocket.feed`, for every
+    application.  `C10_oversize_consequences` + `C10_forced_disconnect_closes` give the ProtocolError
+    case in two steps (`WebSocket.feed` raises after one ProtocolError; `run()` closes socket and
+    selector on a forced disconnect); they are not composed through the receive loop `loop` over an
+    arbitrary environment prefix (that induction belongs to C07/C09).
+  * `C10_ready_event`/`C10_event_handed_over`: Ready is the next event; what `_regular()` emits
+    afterwards (Poll, pings) is not described here.
+-/
+
+/-! ## Non-vacuity: concrete inputs satisfying the hypotheses, on both sides of the statements -/
+
+/-- a good reply in an unusual rendering: names in odd case, tabs, an obs-fold, fields reordered -/
+def goodFields : List WireField :=
+  [ { name := hAccept, upper := [true, false, false, true], pre := [9], fold := some [32, 9],
+      value := sampleDigest, post := [32, 32] },
+    { name := ofString "server", upper := [], pre := [], fold := none, value := ofString "x y", post := [] },
+    { name := hUpgrade, upper := [true, true, true, true, true, true, true], pre := [32], fold := none,
+      value := ofString "WebSocket", post := [9] } ]
+
+example : ∀ f ∈ goodFields, f.ok = true := by decide
+example : (goodFields.map (·.name)).Nodup := by decide
+example : Ready true sampleDigest (parseResponse (renderReply (statusLine (lit "HTTP/1.1") [49, 48, 49] (lit "Switching Protocols")) goodFields)) := by
+  rw [C10_ready_iff_wire sampleDigest _ _ 49 48 49 goodFields (by decide) (by decide) (by decide) (by decide) (by decide)]
+  refine ⟨rfl, ⟨goodFields[2], by decide, by decide, by decide⟩, ⟨goodFields[0], by decide, by decide, by decide⟩, ?_⟩
+  exact ⟨none, by decide +kernel⟩
+example : renderReply (statusLine (lit "HTTP/1.1") [49, 48, 49] (lit "OK")) (goodFields.take 1) =
+    lit "HTTP/1.1 101 OK\r\nSec-websocket-accept:\t\r\n \ts3pPLMBiTxaQ9kYGzzhZRbK+xOo=  \r\n\r\n" := by decide
+-- a 200 reply is refused
+example : ¬ Ready true sampleDigest (parseResponse (renderReply (statusLine (lit "HTTP/1.1") [50, 48, 48] (lit "OK")) goodFields)) := by
+  rw [C10_ready_iff_wire sampleDigest _ _ 50 48 48 goodFields (by decide) (by decide) (by decide) (by decide) (by decide)]
+  simp
+-- the request side: a concrete configuration satisfies every side condition
+def sampleClient : Client :=
+  { url := { secure := true, host := lit "example.com", port := none, path := lit "/chat", query := lit "a=1" },
+    agent := lit "agent/1.0", protocols := [lit "chat", lit "superchat"],
+    customHeaders := [(lit "Origin", lit "http://example.com")], compress := true }
+example : sampleClient.url.resource = lit "/chat?a=1" ∧ sampleClient.url.hostPort = lit "example.com:443" := by decide
+example : (parseRequest (nthRequest sampleClient (fun k => List.replicate 16 k) 3)).isSome = true := by decide +kernel
+example : extsOk (splitList (ofString "permessage-deflate; client_max_window_bits=12")) :=
+  ⟨some { decompressWbits := 15, compressWbits := 12, resetDecompress := false, resetCompress := false }, by decide +kernel⟩
+example : ¬ extsOk (splitList (ofString "permessage-deflate; server_max_window_bits=7")) := by
+  have h : (processExtensions (splitList (ofString "permessage-deflate; server_max_window_bits=7")) none).toOption = none := by
+    decide +kernel
+  rintro ⟨d, hd⟩; rw [hd] at h; simp [Except.toOption] at h
+
+
+-- the consequence theorems: a concrete connection (socket open, an application that answers every
+-- event with `send_text('hi')`) receiving a 200 reply, resp. 16385 bytes without terminator
+def demoSys : Sys :=
+  { cfg := {}, react := fun _ => [.sendText (.str [104, 105]) true], env := [], sockOpen := true }
+def reply200 : Bytes := lit "HTTP/1.1 200 OK\r\nServer: x\r\n\r\n"
+example : demoSys.p.cont = .header ∧ demoSys.closed = false ∧ demoSys.ready = false := by decide
+example : findSep Gen.headerSep (demoSys.p.buf ++ reply200) = some 26 := by decide
+example : onResponse demoSys.cfg.v.strictAccept demoSys.cfg.challenge
+    (parseResponse ((demoSys.p.buf ++ reply200).take (26 + 4))) =
+      .error (ofString "Websocket upgrade failed (code=200)") := by decide +kernel
+example : ∃ s', (wsFeed reply200 demoSys = .ok () s' ∨ ∃ x, wsFeed reply200 demoSys = .err x s') ∧
+    s'.closed = true ∧ s'.sockOpen = false := by
+  obtain ⟨s', h1, h2, h3, _⟩ := C10_not_ready_consequences demoSys reply200 26
+    (ofString "Websocket upgrade failed (code=200)") (by decide) (by decide) (by decide) (by decide) (by decide)
+    (by decide +kernel)
+  exact ⟨s', h1, h2, h3⟩
+example : ∃ s' x, wsFeed (List.replicate 16385 120) demoSys = .err x s' ∧ s'.ready = false := by
+  have hnone : ∀ n, findSep Gen.headerSep (List.replicate n 120) = none := by
+    intro n
+    induction n with
+    | zero => decide
+    | succ n ih =>
+      simp only [List.replicate_succ, findSep, ih, Option.map_none]
+      rw [if_neg]; simp [Gen.headerSep, List.isPrefixOf]
+  obtain ⟨s', x, h1, h2, _⟩ := C10_oversize_consequences demoSys (List.replicate 16385 120) (by decide) (by decide)
+    (by decide) (Or.inl ⟨hnone 16385, by
+      rw [show demoSys.p.buf = [] from rfl, List.nil_append, List.length_replicate]; omega⟩)
+  exact ⟨s', x, h1, h2⟩
+
 end Lomond.C10
